@@ -87,7 +87,10 @@ def run(ctx):
                 for y in walk(c0):
                     if y.get("k") == "call" and short(y.get("name") or "") == "has_option_with_name" and fmt(y["args"][0] if y.get("args") else None) == pn:
                         cand.append(lg.truthy(y, {}, 0))
-        C0 = [("a", "(%s.count(%s) == 0)" % ("this." + own, pn))]
+        m0 = "this." + own
+        # "the name is not in the own map yet", in any of its spellings
+        C0 = [("a", "(%s.count(%s) == 0)" % (m0, pn)), ("a", "(%s.end() == %s.find(%s))" % (m0, m0, pn)), ("a", "(%s.find(%s) == %s.end())" % (m0, pn, m0)),
+              ("a", "(%s.cend() == %s.find(%s))" % (m0, m0, pn)), Not(("a", "%s.contains(%s)" % (m0, pn)))]
         okg = any(logic.entails(st, Or(Not(h), Not(c0)), lg.axioms)[0] is True for h in cand for c0 in C0)
         ctx.check(okg, "R13.1", f, "guarded-by-cross-kind-name-check",
                   "group::%s inserts `%s` without the guard `parser_.has_option_with_name(name) && %s.count(name) == 0` on every path: a name already "
